@@ -595,6 +595,59 @@ func main() {
 		}
 		return true
 	})
+	// the merge: `if <more than one shard> { if <no sort option> { slices.SortFunc(results, <score closure>) } else
+	// { utils.SortSearchResults(results, sr.Sort) } }` — which function orders the concatenated shard answers, on
+	// what, and under which guards (calls are shown with their arguments, a function literal as `func`)
+	var mergeSkel []string
+	callText := func(st ast.Stmt) string {
+		es, ok := st.(*ast.ExprStmt)
+		if !ok {
+			return "stmt:" + show(st)
+		}
+		call, ok := es.X.(*ast.CallExpr)
+		if !ok {
+			return "stmt:" + show(st)
+		}
+		var args []string
+		for _, a := range call.Args {
+			if _, isLit := a.(*ast.FuncLit); isLit {
+				args = append(args, "func")
+			} else {
+				args = append(args, show(a))
+			}
+		}
+		return show(call.Fun) + "(" + strings.Join(args, ", ") + ")"
+	}
+	ast.Inspect(sp, func(x ast.Node) bool {
+		outer, ok := x.(*ast.IfStmt)
+		if !ok || len(outer.Body.List) != 1 || mergeSkel != nil {
+			return true
+		}
+		inner, ok := outer.Body.List[0].(*ast.IfStmt)
+		if !ok || !strings.Contains(show(inner.Cond), "sr.Sort") {
+			return true
+		}
+		mergeSkel = append(mergeSkel, "if "+show(outer.Cond)+" {", "if "+show(inner.Cond)+" {")
+		for _, st := range inner.Body.List {
+			mergeSkel = append(mergeSkel, callText(st))
+		}
+		if eb, ok := inner.Else.(*ast.BlockStmt); ok {
+			mergeSkel = append(mergeSkel, "} else {")
+			for _, st := range eb.List {
+				mergeSkel = append(mergeSkel, callText(st))
+			}
+		} else if inner.Else != nil {
+			mergeSkel = append(mergeSkel, "} else "+show(inner.Else))
+		}
+		mergeSkel = append(mergeSkel, "}", "}")
+		if outer.Else != nil {
+			mergeSkel = append(mergeSkel, "else "+show(outer.Else))
+		}
+		return true
+	})
+	if mergeSkel == nil {
+		die("SearchPoints: the merge of the shard answers (`if … { if … sr.Sort … { sort } else { sort } }`) not found")
+	}
 	if targetExpr == "" || offsetCond == "" || cutCond == "" || sortCmp == "" {
 		die("SearchPoints: could not find targetLimit (%q), offset rule (%q), cut (%q) or score comparison (%q)", targetExpr, offsetCond, cutCond, sortCmp)
 	}
@@ -617,6 +670,8 @@ func main() {
 	fmt.Fprintf(&c, "def offsetAssign : String := %s\n", leanStr(offsetAssign))
 	fmt.Fprintf(&c, "def cutRule : String := %s\n", leanStr(cutCond))
 	fmt.Fprintf(&c, "def scoreCmp : String := %s\n", leanStr(sortCmp))
+	c.WriteString("/-- the merge of ClusterNode.SearchPoints: guards and the two sort calls with their arguments -/\n")
+	fmt.Fprintf(&c, "def mergeSkeleton : List String := %s\n", leanStrs(mergeSkel))
 	c.WriteString("/-- control skeleton of ClusterNode.internalRoute: the retry loop with everything that touches the loop\nvariable, retryErr, the client cache, or leaves the loop / the function -/\n")
 	fmt.Fprintf(&c, "def routeSkeleton : List String := %s\n", leanStrs(skeleton))
 	c.WriteString("end Sema.Gen.FactsC17\n")
